@@ -997,14 +997,54 @@ def w_dim_alias(S, item):
     o1, o2 = outs
     construct = '%s(dim=%d) vs %s(dim=%d)' % (fn, dim, fn, dim % 4)
     if o1.kind != 'ok' or o2.kind != 'ok':
-        if o1.kind == o2.kind and getattr(o1.exc, 'name', 1) == getattr(o2.exc, 'name', 2):
-            res['sample'] = {'config': list(item), 'outcome': 'both raise'}
+        n_short = [H, W][(dim % 4) - 2] < L
+        if o1.kind == o2.kind == 'raises' and o1.exc.name == o2.exc.name == 'RuntimeError' and mode == 'reflect' and n_short:
+            res['sample'] = {'config': list(item), 'outcome': 'both raise (allowed: reflect, axis shorter than the filter)'}
             return res
         res['diff'] = 1
         bad = o1 if o1.kind != 'ok' else o2
-        res['findings'].append(exc_finding(S, bad, construct, '%s:one-spelling-raises' % mode))
+        res['findings'].append(exc_finding(S, bad, construct, '%s:%s' % (mode, 'both-spellings-raise' if o1.kind == o2.kind else
+                                                                         'one-spelling-raises')))
         return res
     prob = same_tensor(o1.value, o2.value)
+    if not prob:
+        # and the positive spelling against the PyWavelets rule along that axis (filters handed in as raw arrays)
+        y = o2.value
+        d = dim % 4
+        sizes = [H, W]
+        ax = d - 2
+        n_ax = sizes[ax]
+        roles = (('user', '0'), ('user', '1'))
+        if fn == 'afb1d':
+            rule = spec.dwt_rule(n_ax, L, mode)
+            ident = [AxisTable.identity((b.id, 0), H), AxisTable.identity((b.id, 1), W)]
+            want_shape = [1, 4, H, W]
+            want_shape[d] = len(rule)
+            if list(y.shape) != want_shape:
+                prob = ('shape', '%s(dim=%d) has shape %s, PyWavelets gives %s' % (fn, d, list(y.shape), want_shape))
+            else:
+                for ci in range(2):
+                    for k in range(2):
+                        tabs = list(ident)
+                        tabs[ax] = spec.apply_rule(ident[ax], rule, roles[k])
+                        if not cells_equal(y.cells[0, 2 * ci + k], expected_cell(b, (0, ci), tabs)):
+                            prob = ('values', 'band %d of channel %d differs from pywt.dwt along axis %d' % (k, ci, d))
+        else:
+            rule = spec.idwt_rule(n_ax, L, mode)
+            want_shape = [1, 2, H, W]
+            want_shape[d] = len(rule)
+            if list(y.shape) != want_shape:
+                prob = ('shape', '%s(dim=%d) has shape %s, PyWavelets gives %s' % (fn, d, list(y.shape), want_shape))
+            else:
+                ident = [AxisTable.identity((b.id, 0), H), AxisTable.identity((b.id, 1), W)]
+                for ci in range(2):
+                    exp = []
+                    for k in range(2):
+                        tabs = list(ident)
+                        tabs[ax] = spec.apply_rule(ident[ax], rule, roles[k])
+                        exp.append(Term(b, (0, ci, k), tabs))
+                    if not cells_equal(y.cells[0, ci], tuple(exp)):
+                        prob = ('values', 'channel %d differs from pywt.idwt along axis %d' % (ci, d))
     if prob:
         res['diff'] = 1
         res['findings'].append(finding('R-DIM', construct, '%s:%s' % (mode, prob[0]),
@@ -1093,6 +1133,22 @@ def w_sibling(S, item):
             o2 = S.run(S.get(LL, 'sfb2d_nonsep'), ll, user_filts(nf, Lc, Lr), mode)
             construct = 'sfb2d[%d prepared tensors] vs sfb2d_nonsep' % nf
             anch = anchor(S, LL, 'sfb2d')
+    elif which == 'atrous-prepared':
+        # the stationary bank given filters prepared as tensors (2- and 4-tensor forms) vs the raw arrays
+        prep = S.get(LL, 'prep_filt_afb2d')
+        o0 = S.run(prep, *user_filts(nf, Lc, Lr))
+        if o0.kind != 'ok':
+            res['diff'] = 1
+            res['findings'].append(exc_finding(S, o0, 'prep_filt_afb2d', '%s:prepare' % mode))
+            return res
+        prepared = list(o0.value)[:nf]
+        b, x = base_tensor('x', nb, c, [H, W])
+        f = S.get(LL, 'afb2d_atrous')
+        o1 = S.run(f, x, prepared, mode, 2)
+        o2 = S.run(f, x, user_filts(nf, Lc, Lr), mode, 2)
+        construct = 'afb2d_atrous[%d prepared tensors] vs raw arrays' % nf
+        anch = anchor(S, LL, 'afb2d_atrous')
+        norm1 = norm2 = lambda v: v
     else:
         raise ValueError(which)
     prob = None
